@@ -186,11 +186,17 @@ def render_case(shape, prefix='c', kinds='$<>', label_len=1, distinct_labels=Tru
         items = []
         first_atom = True
         pending = []
+        branch_of = []      # atoms whose parenthesised branch is open
+        deferred = {}       # atom -> descriptor text written after that atom's last closed branch (opts 'after_branch')
         for pi, pc in enumerate(pieces):
             if pc[0] == 'atom':
                 a = pc[1]
                 ds = desc_on.get(a, [])
                 nxt_is_ring = pi + 1 < len(pieces) and pieces[pi + 1][0] == 'ring'
+                pj = pi + 1
+                while pj < len(pieces) and pieces[pj][0] == 'ring':
+                    pj += 1
+                has_branch = pj < len(pieces) and pieces[pj][0] == 'open'
                 lead = first_atom and opts.get('lead', False) and ds
                 osym = dict(ORDER_SYMBOL)
                 if opts.get('colon'):
@@ -202,8 +208,12 @@ def render_case(shape, prefix='c', kinds='$<>', label_len=1, distinct_labels=Tru
                 if ds and not lead:
                     dtext = []
                     for (k, lab, order) in ds:
-                        dtext.extend(list(osym.get(order, '')) + ['['] + [k] + list(lab) + [']'])
-                    if opts.get('after_ring', False) and nxt_is_ring:
+                        one = list(osym.get(order, '')) + ['['] + [k] + list(lab) + [']']
+                        # opts 'paren': each descriptor in parentheses of its own, C([$])C, as BigSMILES texts often have it
+                        dtext.extend((['('] + one + [')']) if opts.get('paren') else one)
+                    if opts.get('after_branch') and has_branch:
+                        deferred[a] = dtext
+                    elif opts.get('after_ring', False) and nxt_is_ring:
                         pending = dtext
                     else:
                         items.extend(dtext)
@@ -219,8 +229,23 @@ def render_case(shape, prefix='c', kinds='$<>', label_len=1, distinct_labels=Tru
                 items.extend(pc[1])
             elif pc[0] == 'open':
                 items.append('(')
+                k = pi - 1
+                depth = 0
+                while k >= 0:       # the atom this branch hangs on: the last atom at the same nesting depth
+                    if pieces[k][0] == 'close':
+                        depth += 1
+                    elif pieces[k][0] == 'open':
+                        depth -= 1
+                    elif pieces[k][0] == 'atom' and depth == 0:
+                        break
+                    k -= 1
+                branch_of.append(pieces[k][1])
             elif pc[0] == 'close':
                 items.append(')')
+                p = branch_of.pop()
+                if p in deferred and not (pi + 1 < len(pieces) and pieces[pi + 1][0] == 'open'):
+                    items.extend(deferred.pop(p))
+        assert not deferred
         frag_texts.append(items)
     # base graph
     pair_count = {}
